@@ -189,6 +189,25 @@ let prio_case (role : string) (d : string) : string =
     Buffer.contents b
   | _ -> failwith "role"
 
+(* ---------- C14: bufio.Writer sequences ---------- *)
+let bufio_case (size : int) (limit : int) (ops : string) : string =
+  let d = new_dest (if limit < 0 then None else Some (z_of_int limit)) in
+  let b = ref (new_bw (z_of_int size) d) in
+  let obs = ref [] in
+  List.iter (fun o ->
+    let data = bytes_of_hex (String.sub o 1 (String.length o - 1)) in
+    let op = match o.[0] with
+      | 'W' -> WWrite data
+      | 'S' -> WString data
+      | 'B' -> WByte (List.hd data)
+      | 'R' -> WRune data
+      | _ -> failwith "bufio op" in
+    b := bw_step !b op;
+    obs := Printf.sprintf "%d,%d" (List.length (!b).w_dest.d_acc) (List.length (!b).w_buf) :: !obs) (split_on ' ' ops);
+  let (b', err) = bw_flush !b in
+  obs := Printf.sprintf "%d,%d,%s" (List.length b'.w_dest.d_acc) (List.length b'.w_buf) (s_of_bool err) :: !obs;
+  String.concat "|" (List.rev !obs) ^ "|" ^ hex_of_bytes b'.w_dest.d_acc
+
 let eval (fn : string) (args : string list) : string =
   match fn, args with
   | "AstProg", [n; prog] -> let (_, _, o) = run_ast_prog (int_of_string n) prog in o
@@ -206,6 +225,7 @@ let eval (fn : string) (args : string list) : string =
      | Panic, _ | _, Panic -> "PANIC"
      | _, _ -> "FUEL")
   | "Prio", [role; d] -> prio_case role d
+  | "Bufio", [size; limit; ops] -> bufio_case (int_of_string size) (int_of_string limit) ops
   | "ReaderProg", [src; script] ->
     let b = bytes_of_hex src in
     run_reader_prog plain_ops (new_reader b) (List.length b) script
